@@ -277,6 +277,11 @@ func runSocksScenario(sw *socksWorld, bi int, beh []Step, tr *Trace, sum *Summar
 		emit("Handshake")
 		for _, st := range beh[1:] {
 			switch st.Str("op") {
+			case "Wait":
+				// longer than any handshake takes (and than any deadline a handshake might be given)
+				time.Sleep(6 * time.Second)
+				sum.Counters["pauses of 6 s"]++
+				emit("Wait")
 			case "AgentAnswer":
 				code := map[string]uint32{"ok": 0, "timeout": 10060, "refused": 10061, "hostunreach": 10065, "netunreach": 10051, "other": 12345}[s("answer")]
 				b := &refdemon.Buf{}
